@@ -592,7 +592,7 @@ func init() {
 		Explain: "Structural necessary conditions of ShardByPrefix (DESIGN.md 5/C17): the size guard on the only emitting edge and the boundary emitted there (at most maxSize keys per shard), boundaries start at 0 and the recursion covers all keys, the prefix length is the running minimum of len(keys[s]) and firstDiffs[i]>>3 over exactly the range's adjacent differences (longest common prefix in bytes), bits-to-bytes conversion at every use, the split list (restart on shorter, extend on equal, close with e) and the recursion over it.",
 		NotDec:  []string{"strict ascending order / uniqueness of the shard prefixes (follows from splitting at minimal common-prefix positions; combinatorial argument)", "termination of the recursion"},
 		Trusted: []string{"go/ssa construction", "FirstDiffBits (C16)"},
-		Quick:   []Config{cfgDefault}, Thorough: []Config{cfgDefault, cfg386},
+		Quick:   []Config{cfgDefault, cfg386}, Thorough: []Config{cfgDefault, cfg386},
 		Run: runC17,
 	})
 }
